@@ -410,6 +410,8 @@ def oracle(c, block):
                         lock_holder[x] = "T%d" % t
                 elif o[0] in ("preinc", "postinc"):
                     inc_done[int(o[1])] = inc_done.get(int(o[1]), 0) + 1
+                elif o[0] in ("ctradd", "ctrsub"):
+                    inc_done[int(o[1])] = inc_done.get(int(o[1]), 0) + (int(o[2]) if o[0] == "ctradd" else -int(o[2]))
                 elif o[0] == "lfadd":
                     lf_done[int(o[1])] = (lf_done.get(int(o[1]), 0) + int(o[2])) % W64
                 elif o[0] == "max":
@@ -451,7 +453,7 @@ def oracle(c, block):
             zs = [int(v) for v in st["Z"].split(",")] if st.get("Z") else []
             for cidx, v in enumerate(xs):
                 if v != inc_done.get(cidx, 0) % W64:
-                    return "at quiescence after step %d: counter %d is %d after %d completed increments (lost update)" % (step, cidx, v, inc_done.get(cidx, 0))
+                    return "at quiescence after step %d: counter %d is %d, the completed increments, additions and subtractions sum to %d (lost update)" % (step, cidx, v, inc_done.get(cidx, 0))
             for cidx, v in enumerate(zs):
                 if v != max_done.get(cidx, 0):
                     return "at quiescence after step %d: max variable %d is %d, maximum of the completed max() calls is %d" % (step, cidx, v, max_done.get(cidx, 0))
@@ -576,6 +578,41 @@ def run_batch(ck, cases, with_model=True):
     return bi, bm, rc_i, hdr
 
 
+def counter_arithmetic(ck):
+    """'atomic counters never lose an update' for the operations that are not part of the model's alphabet (AtomicValue::pre_add and
+    pre_subtract, used for the photon countdown of the continuous source): real threads under the deterministic scheduler, all schedule
+    prefixes + seeded schedules, decided by the oracle alone (every completed operation is in the counter at quiescence)."""
+    cs = []
+    base = [base_case(2, 1, [["e0:1000", "s0:3", "i0", "s0:1"], ["e0:1000", "i0", "s0:2", "s0:5"]], nctr=1),
+            base_case(3, 1, [["e0:500", "s0:3", "s0:4"], ["e0:500", "s0:1", "e0:7"], ["e0:500", "s0:2", "p0"]], nctr=1)]
+    for bi_, b in enumerate(base):
+        depth = (9 if ck.quick else 12) if b["nthr"] == 2 else (5 if ck.quick else 7)
+        for j, e in enumerate(exhaustive(b, depth)):
+            cs.append(("n_%d_%d" % (bi_, j), e))
+    rng = ck.rng
+    for i in range(300 if ck.quick else 3000):
+        nthr = 2 + rng.below(2)
+        progs = [["e0:1000"] + [rng.choice(["s0:%d" % (1 + rng.below(9)), "e0:%d" % (1 + rng.below(9)), "i0", "p0", "s1:1", "e1:2"]) for _ in range(3 + rng.below(4))] for _ in range(nthr)]
+        for pr in progs:
+            pr.insert(1, "e1:1000")
+        c = base_case(nthr, 1, progs, nctr=2)
+        c["sched"] = [rng.below(nthr) for _ in range(80)]
+        cs.append(("n_r%d" % i, c))
+    bi, _, rc, _ = run_batch(ck, cs, with_model=False)
+    bad = 0
+    for cid, c in cs:
+        blk = bi.get(cid)
+        if blk is None or not blk[-1].startswith("end "):
+            ck.breaks.append("no complete log from the real AtomicValue counters for case %s (exit %d)" % (cid, rc))
+            break
+        why = oracle(c, blk)
+        if why:
+            bad += 1
+            if bad <= 2:
+                ck.violation("C08 fails on the real AtomicValue counters: " + why, {"case": c, "failing_clause": why}, key={"kind": "containers", "clause": why.split(" at ")[0][:60]})
+    ck.coverage["counter_arithmetic_schedules"] = len(cs)
+
+
 def run(ck):
     ck.prove()
     if not hook_present():
@@ -609,6 +646,7 @@ def run(ck):
         cases.append(("r_%d" % i, gen_random(ck.rng, i)))
     cmap = dict(cases)
     bi, bm, rc_i, hdr = run_batch(ck, cases, with_model=okm)
+    counter_arithmetic(ck)
     ck.log("ran %d schedules (%d corpus+exhaustive, %d random)" % (len(cases), nexh, nrand))
     if rc_i != 0:
         ck.breaks.append("the scheduler harness exited with status %d (a thread hung between two yield points or crashed)" % rc_i)
